@@ -35,7 +35,7 @@ TIMEOUT = int(os.environ.get("C07_TIMEOUT", "30"))      # seconds = "hangs" (pro
 INTERNAL_PHRASES = ["bug of the erg compiler", "bug of erg compiler", "this is a bug", "bug of erg"]
 CPU_LIMIT = 2 * TIMEOUT   # CPU seconds after which a command counts as hanging: twice the property's 30 s, because CPU
                           # time itself is inflated (page faults, cache thrashing) on a heavily loaded machine
-HANG_SAMPLE_AFTER = 10    # seconds before the stack of a hanging command is sampled
+HANG_SAMPLE_AFTER = 12    # CPU seconds after which the stack of a hanging command is sampled (and again at 1.6 x)
 MAGIC_311 = "3495"      # `--py-magic-num 3495` = what the default detection finds for python3.11; saves three python
                         # subprocesses per compile (a sample is also compiled without it)
 CRASH_KINDS = ("panic", "bug", "signal", "hang", "exit")
@@ -234,7 +234,7 @@ class Runner:
         return "+".join(sorted(n for n, k in names.items() if k >= 3))[:300]
 
     def hang_site(self, args, path):
-        """a hang has no location either: start the command again, attach gdb after HANG_SAMPLE_AFTER seconds and name the
+        """a hang has no location either: start the command again, attach gdb after HANG_SAMPLE_AFTER CPU seconds and name the
         busy place by the two functions of the compiler crate that occur most often on the stack in both of two samples
         taken some seconds apart (coarse: different hangs inside the same recursion share a site).  '' without gdb."""
         if not shutil.which("gdb"):
@@ -246,12 +246,23 @@ class Runner:
         except OSError:
             return ""
         samples = []
+
+        def cpu_seconds(pid):
+            try:
+                f = open("/proc/%d/stat" % pid).read().rsplit(")", 1)[1].split()
+                return (int(f[11]) + int(f[12])) / os.sysconf("SC_CLK_TCK")
+            except (OSError, IndexError, ValueError):
+                return -1.0
         try:
-            time.sleep(HANG_SAMPLE_AFTER)
-            for _ in range(2):
+            # sample when the process has burnt HANG_SAMPLE_AFTER (then 1.6 x that) seconds of CPU: well inside the busy part,
+            # whatever the load of the machine
+            for target in (HANG_SAMPLE_AFTER, HANG_SAMPLE_AFTER * 1.6):
+                t0 = time.time()
+                while p.poll() is None and 0 <= cpu_seconds(p.pid) < target and time.time() - t0 < 900:
+                    time.sleep(1)
                 if p.poll() is not None:
                     return ""
-                q = subprocess.run(["gdb", "-p", str(p.pid), "-batch", "-ex", "thread apply all bt 120"], capture_output=True, timeout=600)
+                q = subprocess.run(["gdb", "-p", str(p.pid), "-batch", "-ex", "thread apply all bt 120"], capture_output=True, timeout=900)
                 names = []
                 for line in q.stdout.decode("utf-8", "replace").splitlines():
                     for _k in range(5):
@@ -261,7 +272,6 @@ class Runner:
                         parts = [x for x in m.group(2).split("::") if x]
                         names.append("::".join(parts[-2:]))
                 samples.append(names)
-                time.sleep(5)
         except (subprocess.TimeoutExpired, OSError):
             return ""
         finally:
@@ -306,7 +316,7 @@ class Runner:
             if o.kind == "hang" and o.site == "timeout":
                 argv = o.cmd.split()
                 extra = ["--py-magic-num", MAGIC_311] if (argv[0] == "compile" and magic) else []
-                site = self.hang_site(argv + extra, path)
+                site = self.hang_site(argv + extra, path) or self.hang_site(argv + extra, path)
                 if site:
                     o.site = "timeout:" + site
         for f in os.listdir(d):
